@@ -193,6 +193,14 @@ pub fn fnv64(bytes: &[u8]) -> u64 {
 
 thread_local! {
     static LAST_PANIC: RefCell<Option<String>> = RefCell::new(None);
+    static PANIC_COUNT: std::cell::Cell<u64> = std::cell::Cell::new(0);
+}
+
+/// How many panics have been raised on this thread so far (the hook counts them, whoever catches them): a panic that
+/// the tested code raises and catches again by itself is still a panic - fatal under `panic = "abort"` or a hook
+/// that aborts.
+pub fn panics_on_this_thread() -> u64 {
+    PANIC_COUNT.try_with(|c| c.get()).unwrap_or(0)
 }
 static HOOK_INSTALLED: AtomicBool = AtomicBool::new(false);
 
@@ -215,6 +223,7 @@ pub fn install_quiet_panic_hook() {
             .unwrap_or_default();
         // (try_with: the hook may run while the thread's locals are being destroyed)
         let _ = LAST_PANIC.try_with(|p| *p.borrow_mut() = Some(format!("{} @ {}", msg, loc)));
+        let _ = PANIC_COUNT.try_with(|c| c.set(c.get() + 1));
         if std::env::var_os("LV_SHOW_PANICS").is_some() {
             eprintln!("[panic] {} @ {}", msg, loc);
         }
